@@ -11,6 +11,8 @@
   Freedom from data races as such (Go memory model) is NOT expressible here and is not claimed.
 -/
 import MosVerif.Model.Own
+import MosVerif.Lemmas.PoolView
+import MosVerif.Generated.Facts
 namespace MosVerif.C20
 open MosVerif.Own
 
@@ -282,5 +284,27 @@ example : safe [.get 0 5, .use 0 5, .send 0 1 5, .use 1 5, .release 1 5, .get 2 
 example : safe [.get 0 5, .release 0 5, .use 0 5] = false := by decide
 example : poolSafe [] [.get 1, .release 1, .get 1, .release 1] = true := by decide
 example : poolSafe [] [.get 1, .release 1, .release 1] = false := by decide
+
+/-! ### what a function may see of a pooled buffer (Model/PoolView: the DoH GET decode, defect D60) -/
+
+/-- ★ the DoH GET path parses exactly the octets the base64 decoder produced — `buf[:n]` — whatever the previous
+    owner of the pooled buffer left in it: two requests that decode alike are parsed alike. -/
+theorem doh_get_view_independent_of_previous_owner (d₁ d₂ decoded : PoolView.Bytes)
+    (h₁ : decoded.length ≤ d₁.length) (h₂ : decoded.length ≤ d₂.length) :
+    PoolView.viewFixed d₁ decoded = PoolView.viewFixed d₂ decoded ∧ PoolView.viewFixed d₁ decoded = some decoded :=
+  ⟨PoolView.viewFixed_independent d₁ d₂ decoded h₁ h₂, PoolView.viewFixed_eq d₁ decoded h₁⟩
+
+/-- the hypothesis is what distinguishes the repaired code: parsing the whole buffer shows the previous owner's
+    octets verbatim as soon as the decoder skipped a character -/
+theorem doh_get_whole_buffer_leaks (junk decoded tail : PoolView.Bytes) (h : junk.length = decoded.length) :
+    PoolView.viewWhole (junk ++ tail) decoded = some (decoded ++ tail) :=
+  PoolView.viewWhole_shows_tail junk decoded tail h
+
+/-- tie (pinned source facts): both HTTP listeners keep the decoder's count and parse `buf[:n]` -/
+theorem pins_poolview :
+    Facts.pv_fastDecode = "n, err := base64.RawURLEncoding.Decode(buf, base64Dns)" ∧
+    Facts.pv_fastView = "reqWireMsg = buf[:n]" ∧
+    Facts.pv_goDecode = "n, err := base64.RawURLEncoding.Decode(buf, utils.Str2BytesUnsafe(s))" ∧
+    Facts.pv_goView = "reqWireMsg = buf[:n]" := by decide
 
 end MosVerif.C20
